@@ -337,6 +337,11 @@ def run_case(ctx, case):
   # ---- traceback and message
   frames = [f.name for f in traceback.extract_tb(caught.__traceback__)]
   ctx.check('innermost' in frames, 'traceback-lost', '%s: traceback of the caught exception lacks the raising frame: %r' % (tname, frames))
+  # the *original* traceback: every configurable body between the caller and the raise site is still there, outermost first
+  body = ['c17meth'] if site == 'method' else [['f1', 'f2', '__init__', 'f4'][i] for i in range(depth)][::-1]
+  pos = [frames.index(b) if b in frames else -1 for b in body]
+  ctx.check(-1 not in pos and pos == sorted(pos) and frames.index('innermost') > max(pos), 'traceback-frames-missing',
+            '%s at depth %d via %s: traceback frames %r do not contain the bodies %r in call order' % (tname, depth, site, frames, body))
   text = str(caught)
   base = str(orig)
   ctx.check(text.startswith(base), 'message-not-extended-original', '%s: str(caught)=%r does not start with str(original)=%r' % (tname, text[:200], base[:200]))
